@@ -227,6 +227,7 @@ func init() {
 			{Pkg: "aac", Func: "HarnessC07_Aac", Stall: true, Labels: []string{"c07-aac", "c07-aac-frame"}, Bound: "ADTS Decode (repeated on the remainder), ASC UnmarshalBinary, SetASC+Encode on every byte string of 0..12 bytes (thorough 0..16)"},
 			{Pkg: "aac", Func: "HarnessC07_AacEnums", Labels: []string{"c07-aac-enums"}, Bound: "all aac enum helpers, receiver symbolic over uint8"},
 			{Pkg: "avc", Func: "HarnessC07_Avc", Stall: true, Labels: []string{"c07-avc", "c07-avc-record", "c07-avc-sample"}, Bound: "NALU / record / sample (length size 1..4) UnmarshalBinary on every byte string of 0..10 bytes (thorough 0..14)"},
+			{Pkg: "websocket", Func: "HarnessC07_Websocket", TimeFixed: true, Stall: true, Labels: []string{"c07-websocket"}, Bound: "NextReader/Read until error over every byte string of 0..5 bytes (thorough 0..8, also with a read limit), both roles; deeper states are covered from arbitrary reader states by C14_Step"},
 			{Pkg: "avc", Func: "HarnessC07_AvcEnums", Labels: []string{"c07-avc-enums"}, Bound: "NALUType (uint8), AVCProfile (uint16), AVCLevel (uint8) String() over their whole range"},
 		},
 	})
